@@ -474,6 +474,34 @@ func addClosures(out *[]*program) {
 	}
 }
 
+// addRebind: the same compiled code evaluated again under DIFFERENT bindings. f1's call of f2 sits in every context
+// and reads f1's parameter or a let variable of f1's body; the main expression calls f1 three times with
+// different arguments (a sub-form that was compiled, cached or closed over at its first evaluation and kept the
+// bindings of that evaluation shows as a repeated first value).
+func addRebind(out *[]*program) {
+	for ci := range ctxs {
+		c := &ctxs[ci]
+		for a := 1; a <= 2; a++ {
+			for _, via := range []string{"param", "let", "loop"} {
+				src := []string{"x", "y"}
+				body := callExpr(c, 2, argExprs(1, a, src))
+				switch via {
+				case "let":
+					body = "(let ((w (* x 3)) (z (+ y 1))) " + callExpr(c, 2, argExprs(1, a, []string{"w", "z"})) + ")"
+				case "loop":
+					body = "(mapcar (lambda (i) (let ((w (+ x i))) " + callExpr(c, 2, argExprs(1, a, []string{"w", "y"})) + ")) (list 0 10))"
+				}
+				*out = append(*out, &program{fam: "rebind", id: fmt.Sprintf("rebind:%s:%s:%d", via, c.name, a), thorough: !c.quick,
+					feats: []string{"re-evaluated-under-new-bindings"},
+					defs: []string{"(defun @f1 (x y) " + body + ")",
+						fmt.Sprintf("(defun @f2 %s %s)", params(a, "req"), leafValue(a, 0))},
+					alts: []string{"", fmt.Sprintf("(defun @f2 %s %s)", params(a, "req"), leafValue(a, 1))},
+					main: "(list (@f1 1 2) (@f1 3 4) (@f1 1 2))"})
+			}
+		}
+	}
+}
+
 func addData(out *[]*program) {
 	*out = append(*out,
 		&program{fam: "data", id: "data:eval-quoted", feats: []string{"code-as-data"},
@@ -513,6 +541,7 @@ func allPrograms() []*program {
 		addVars(&progList)
 		addClosures(&progList)
 		addData(&progList)
+		addRebind(&progList)
 		progByID = map[string]*program{}
 		for _, p := range progList {
 			if _, dup := progByID[p.id]; dup {
